@@ -499,6 +499,17 @@ func specQuery(P string, retained []*Event, fs []*ReqFilter, got []*Event) {
 // the guarded state. With sync.RWMutex semantics this yields race freedom and
 // linearizability at the lock acquisition (derivation in DESIGN.md, not a query);
 // the per-state clauses are then C04/C05's step invariants, re-asserted here.
+// vpCriticalSectionOrUnsupported: "exactly one critical section per exported operation" is
+// the premise of the derivation of linearizability from RWMutex semantics, not the property:
+// when it does not hold the derivation does not apply and this harness cannot conclude
+// (INCONCLUSIVE); whether an interleaving then actually misbehaves is decided by the
+// schedule exploration (vpH_C15_schedules).
+func vpCriticalSectionOrUnsupported(what string) {
+	if !vpOneCriticalSection() {
+		vpUnsupported(what + ": the operation is not one critical section, so the lock-discipline argument for linearizability does not apply")
+	}
+}
+
 func vpH_C15_lockset() {
 	n := vpHistSteps()
 	capacity := vpCapacity(1)
@@ -510,13 +521,13 @@ func vpH_C15_lockset() {
 		e := h.next(i)
 		vpLockEvents(true)
 		before := c.Find(all)
-		vpAssert(vpOneCriticalSection(), "C15.find-one-critical-section")
+		vpCriticalSectionOrUnsupported("C15.find-one-critical-section")
 		flag := c.Add(e)
-		vpAssert(vpOneCriticalSection(), "C15.add-one-critical-section")
+		vpCriticalSectionOrUnsupported("C15.add-one-critical-section")
 		after := c.Find(all)
 		vpLockEvents(true)
 		ln := c.Len()
-		vpAssert(vpOneCriticalSection(), "C15.len-one-critical-section")
+		vpCriticalSectionOrUnsupported("C15.len-one-critical-section")
 		specStep("C15", before, e, flag, after, int64(capacity), ln)
 		// no query shows an event together with a retained deletion request of its author referencing it
 		for _, k := range after {
@@ -528,7 +539,7 @@ func vpH_C15_lockset() {
 		}
 		// a selective query (index path) under the monitor as well
 		sel := c.Find([]*ReqFilter{{Authors: []string{"A"}, Kinds: []int64{e.Kind}}})
-		vpAssert(vpOneCriticalSection(), "C15.find-index-one-critical-section")
+		vpCriticalSectionOrUnsupported("C15.find-index-one-critical-section")
 		for _, x := range sel {
 			vpAssert(vpHasEvent(after, x), "C15.index-answer-is-retained")
 		}
